@@ -278,6 +278,15 @@ def specs(tier):
         for law in ("S-S", "S|~S", "S^S"):
             out.append(dict(module="checks.c06", scenario="SingletonLaw", params=dict(S=S, law=law, history=True)))
     out.append(dict(module="checks.c06", scenario="WellFormed", params=dict(A="hollow", B="tinyring", expr=["|", "A", "B"], lim=F_(1, 20)), time_budget=None if tier == "quick" else 2400))
+    # results with quadratic sides: concrete placements, query point free (checks/curvedops.py)
+    from checks.curvedops import CONFIGS
+
+    keep = {("lens", "slab", "3/2"), ("lens", "sq1", "3/2"), ("pill", "slab", "1"), ("blob", "sq2", "-1"), ("dome", "sq2", "1"), ("blob", "lens", "0")}
+    for A, B, sh, sc in CONFIGS:
+        if tier == "quick" and (A, B, sh[0]) not in keep:
+            continue
+        for op in OPS:
+            out.append(dict(module="checks.curvedops", scenario="CurvedOps", params=dict(A=A, B=B, op=op, shift=list(sh), scaleB=str(sc), num="float", wf=True), time_budget=600))
     return out
 
 
